@@ -99,8 +99,8 @@ def run_one(acc, stepper, calib, wd, idx, family, text, fmt='prophy', patch=None
             mech = 'isar-duplicate-enum-value-reported-as-ValueError'
         elif (fmt == 'isar' and isinstance(exc, (TypeError, AttributeError, KeyError)) and where.startswith('isar.py:')):
             mech = 'isar-missing-or-unknown-attribute-crashes-the-parser'
-        elif patch is not None and '/generators/' in tb[-1].filename:
-            mech = 'patched-model-is-not-revalidated-and-crashes-the-generator'
+        elif fmt == 'isar' and '/generators/' in tb[-1].filename:
+            mech = 'isar-or-patched-model-is-not-validated-and-crashes-the-generator'
         acc.violation(PROP, mech,
                       witness(traceback=[(os.path.basename(f.filename), f.lineno, f.name) for f in tb[-6:]]))
     elif cls == 'ok':
@@ -185,6 +185,33 @@ def include_cases():
     ]
 
 
+def random_cyclic_isar(rng):
+    """isar definition sets with a dependency cycle plus definitions that merely USE a cycle member, in random order
+    (a sort that only notices a cycle when the node it is placing belongs to it never terminates on these)."""
+    from .c15 import gen_dag
+    out = []
+    for _ in range(2):
+        sch, deps = gen_dag(rng, rng.randint(4, 9))
+        structs = [d for d in sch.defs if d.kind == 'struct']
+        if len(structs) < 2:
+            continue
+        a, b = rng.sample(structs, 2)
+        early, late = (a, b) if sch.defs.index(a) < sch.defs.index(b) else (b, a)
+        early.members[0].type = late.name          # back edge: early -> late (late may already reach early, or not)
+        early.members[0].kind = S.PLAIN
+        late.members[-1].type = early.name         # and late -> early closes the cycle for sure
+        late.members[-1].kind = S.PLAIN
+        late.members[-1].size_text = None
+        names = [d.name for d in sch.defs]
+        rng.shuffle(names)
+        try:
+            xml, _ = S.to_isar(sch, order=names)
+        except Exception:  # noqa
+            continue
+        out.append(('isar-random-cycle', xml))
+    return out
+
+
 def run_shard(spec):
     acc = Acc()
     stepper = pc.Stepper()
@@ -236,6 +263,8 @@ def run_shard(spec):
                 if patch:
                     for fam, t in B.token_corruptions(patch, rng, 2):
                         go('patch-' + fam, xml, fmt='isar', patch=t)
+                for fam, t in random_cyclic_isar(rng):
+                    go(fam, t, fmt='isar')
     finally:
         stepper.close()
     return acc.done()
@@ -245,6 +274,7 @@ def finish(ctx, merged, specs):
     if specs and specs[0]['kind'] == 'replay':
         return
     need = ['outcome:ok', 'outcome:designed', 'family:structural', 'family:replace-token', 'family:expression',
+            'family:isar-random-cycle',
             'family:options', 'family:include', 'cli_runs', 'positional_diagnostics']
     missing = [f for f in need if not merged['counters'].get(f)]
     if missing and not merged['inconclusive']:
